@@ -114,6 +114,52 @@ type BackendServerRoomRequest struct {
 	ReceivedTime int64 `json:"received,omitempty"`
 }
 
+func (r *BackendServerRoomRequest) CheckValid() error {
+	switch r.Type {
+	case "":
+		return fmt.Errorf("type missing")
+	case "invite":
+		if r.Invite == nil {
+			return fmt.Errorf("invite missing")
+		}
+	case "disinvite":
+		if r.Disinvite == nil {
+			return fmt.Errorf("disinvite missing")
+		}
+	case "update":
+		if r.Update == nil {
+			return fmt.Errorf("update missing")
+		}
+	case "delete":
+		if r.Delete == nil {
+			return fmt.Errorf("delete missing")
+		}
+	case "incall":
+		if r.InCall == nil {
+			return fmt.Errorf("incall missing")
+		}
+	case "participants":
+		if r.Participants == nil {
+			return fmt.Errorf("participants missing")
+		}
+	case "message":
+		if r.Message == nil {
+			return fmt.Errorf("message missing")
+		}
+	case "switchto":
+		if r.SwitchTo == nil {
+			return fmt.Errorf("switchto missing")
+		} else if err := r.SwitchTo.CheckValid(); err != nil {
+			return err
+		}
+	case "dialout":
+		if r.Dialout == nil {
+			return fmt.Errorf("dialout missing")
+		}
+	}
+	return nil
+}
+
 type BackendRoomInviteRequest struct {
 	UserIds []string `json:"userids,omitempty"`
 	// TODO(jojo): We should get rid of "AllUserIds" and find a better way to
@@ -174,6 +220,26 @@ type BackendRoomSwitchToMessageRequest struct {
 	// Internal properties
 	SessionsList BackendRoomSwitchToSessionsList `json:"sessionslist,omitempty"`
 	SessionsMap  BackendRoomSwitchToSessionsMap  `json:"sessionsmap,omitempty"`
+}
+
+func (r *BackendRoomSwitchToMessageRequest) CheckValid() error {
+	if len(r.Sessions) == 0 {
+		return nil
+	}
+
+	// Must be either a list of sessions or a map with details per session.
+	if r.Sessions[0] == '[' {
+		var sessionsList BackendRoomSwitchToSessionsList
+		if err := json.Unmarshal(r.Sessions, &sessionsList); err != nil {
+			return fmt.Errorf("invalid sessions list: %w", err)
+		}
+	} else {
+		var sessionsMap BackendRoomSwitchToSessionsMap
+		if err := json.Unmarshal(r.Sessions, &sessionsMap); err != nil {
+			return fmt.Errorf("invalid sessions map: %w", err)
+		}
+	}
+	return nil
 }
 
 type BackendRoomDialoutRequest struct {
